@@ -62,19 +62,25 @@ impl Iterator for Scanlines {
     type Item = Scanline;
 
     fn next(&mut self) -> Option<Self::Item> {
-        let y = self.rows.next()?;
+        let Self {
+            rows,
+            columns,
+            center_2x,
+            ellipse_contains,
+        } = self;
 
-        let scaled_y = y * 2 - self.center_2x.y;
+        // Rows that don't contain any point inside the ellipse are skipped instead of ending the
+        // iteration. Such rows exist at the top and bottom of very thin ellipses.
+        rows.find_map(|y| {
+            let scaled_y = y * 2 - center_2x.y;
 
-        self.columns
-            .clone()
-            // Find the first pixel that is inside the ellipse.
-            .find(|x| {
-                self.ellipse_contains
-                    .contains(Point::new(*x * 2 - self.center_2x.x, scaled_y))
-            })
-            // Shorten the right side of the scanline by the same amount as the left side.
-            .map(|x| Scanline::new(y, x..self.columns.end - (x - self.columns.start)))
+            columns
+                .clone()
+                // Find the first pixel that is inside the ellipse.
+                .find(|x| ellipse_contains.contains(Point::new(*x * 2 - center_2x.x, scaled_y)))
+                // Shorten the right side of the scanline by the same amount as the left side.
+                .map(|x| Scanline::new(y, x..columns.end - (x - columns.start)))
+        })
     }
 }
 
